@@ -1,4 +1,4 @@
 SPECIFICATION Spec
-CONSTANTS P = 12  N = 4  BROKEN = FALSE
+CONSTANTS P = 12  N = 3  BROKEN = FALSE
 INVARIANTS WalkOK NoPieceTwice
 CHECK_DEADLOCK FALSE
